@@ -9,7 +9,8 @@ import (
 )
 
 // Script renders an obligation as a self-contained SMT-LIB2 script (unsat = discharged; for Cover: sat = ok).
-func (x *Exec) Script(o *Obligation) string {
+// With model set, the script also asks for the values of the watched terms.
+func (x *Exec) Script(o *Obligation, model bool) string {
 	var b strings.Builder
 	b.WriteString("(set-option :produce-models true)\n(set-logic ALL)\n")
 	b.WriteString("; obligation: " + o.Name + "\n; " + strings.ReplaceAll(o.Source, "\n", " ") + "\n")
@@ -30,15 +31,33 @@ func (x *Exec) Script(o *Obligation) string {
 	if len(gs) > 1 {
 		fmt.Fprintf(&b, "(assert (distinct %s))\n", strings.Join(gs, " "))
 	}
-	for _, f := range o.Facts {
-		b.WriteString("(assert " + f.S + ")\n")
+	var tags []string
+	for t := range x.typeTags {
+		tags = append(tags, t)
 	}
+	sort.Strings(tags)
+	if len(tags) > 1 {
+		fmt.Fprintf(&b, "(assert (distinct %s))\n", strings.Join(tags, " "))
+	}
+	for _, k := range smt.SortedKeys(x.axioms) {
+		b.WriteString(x.axioms[k] + "\n")
+	}
+	var body strings.Builder
+	for _, f := range o.Facts {
+		body.WriteString("(assert " + f.S + ")\n")
+	}
+	for _, a := range x.relevantAxioms(body.String() + o.Goal.S) {
+		b.WriteString("(assert " + a.S + ")\n")
+	}
+	b.WriteString(body.String())
 	if !o.Cover {
-		b.WriteString("(assert (not " + skolemize(o.Goal.S) + "))\n")
+		b.WriteString("(assert (not " + o.Goal.S + "))\n")
 	}
 	b.WriteString("(check-sat)\n")
+	if model && len(o.Watch) > 0 {
+		for _, w := range o.Watch {
+			b.WriteString("(get-value (" + w.T.S + "))\n")
+		}
+	}
 	return b.String()
 }
-
-// skolemize is the identity for now: (not (forall ...)) is handled well enough by the solvers' own skolemisation.
-func skolemize(s string) string { return s }
